@@ -276,6 +276,14 @@ def main():
         tail = (props['out'] if not props['ok'] else out)[-1200:]
         broken.append(f'proof obligations of Props/{prop_id}.v no longer check: ' + tail)
     models_ok = all(status.get(m) for m in model_vo)
+    coqchk_summary = None
+    if tier == 'thorough' and props['ok'] and os.environ.get('VERIF_NO_COQCHK') != '1':
+        rc2, out2, wall2 = kv.run(['coqchk', '-silent', '-o', '-Q', kv.COQ, 'KV', f'KV.Props.{prop_id}'], 1800)
+        m2 = re.search(r'CONTEXT SUMMARY.*', out2, re.S)
+        coqchk_summary = ' '.join((m2.group(0) if m2 else out2[-600:]).split())
+        if rc2 != 0:
+            broken.append('coqchk rejects the compiled development: ' + out2[-600:])
+        notes.append(f'coqchk -o KV.Props.{prop_id}: exit {rc2} in {wall2:.0f}s')
 
     # -- 3. cases: corpus first, then generated
     cases = []
@@ -420,6 +428,8 @@ def main():
     trusted += list(getattr(mod, 'TRUSTED', []))
     for n, b in props['assumptions'].items():
         trusted.append(f'Print Assumptions {n}: ' + ' '.join(b.split()))
+    if coqchk_summary:
+        trusted.append('coqchk -o (independent re-check of the .vo closure): ' + coqchk_summary)
     evidence = {
         'property_id': prop_id, 'tier': tier, 'seed': seed, 'level': 'proof',
         'coverage': {
